@@ -241,9 +241,22 @@ func c17(r *Run) {
 	}
 
 	// ---- R3 shard lock pairing and guarded-by ----------------------------------------------------
-	for _, fn := range []*ssa.Function{add, worker} {
+	// the worker and the private helpers only it calls (statements extracted from it)
+	workerFns := []*ssa.Function{worker}
+	for _, f := range w.Funcs {
+		if f != worker && f != deal {
+			if o, ok := w.OwnerOf(f, func(n string) bool { return n == w.FnName(worker) }); ok && o == w.FnName(worker) {
+				workerFns = append(workerFns, f)
+			}
+		}
+	}
+	workerLocks := 0
+	for _, f := range workerFns {
+		workerLocks += len(findIns(f, func(i ssa.Instruction) bool { return isCall(i, qlock) }))
+	}
+	for _, fn := range append([]*ssa.Function{add}, workerFns...) {
 		acq := findIns(fn, func(i ssa.Instruction) bool { return isCall(i, qlock) })
-		if len(acq) == 0 {
+		if len(acq) == 0 && (fn == add || (fn == worker && workerLocks == 0)) {
 			r.ob("C17.R3:shard-lock-used:"+w.FnName(fn), "the function takes the shard lock", fn, nil, false, "no q.lock(shard)", false)
 		}
 		for i, a := range acq {
@@ -275,24 +288,52 @@ func c17(r *Run) {
 	// the drained shard is replaced by an empty slice, and what is dealt with is what was taken
 	{
 		okEmpty := false
-		forEachIns(worker, func(i ssa.Instruction) {
-			st, ok := i.(*ssa.Store)
-			if !ok {
-				return
-			}
-			ia, ok := st.Addr.(*ssa.IndexAddr)
-			if !ok || !strings.HasSuffix(pathOf(ia.X), ".getters") {
-				return
-			}
-			if sl, ok := st.Val.(*ssa.Slice); ok && sl.High != nil {
-				if k, okc := constInt(sl.High); okc && k == 0 {
-					okEmpty = true
+		var sameArray ssa.Instruction
+		for _, wf := range workerFns {
+			forEachIns(wf, func(i ssa.Instruction) {
+				st, ok := i.(*ssa.Store)
+				if !ok {
+					return
 				}
-			}
-		})
+				ia, ok := st.Addr.(*ssa.IndexAddr)
+				if !ok || !strings.HasSuffix(pathOf(ia.X), ".getters") {
+					return
+				}
+				if sl, ok := st.Val.(*ssa.Slice); ok && sl.High != nil {
+					if k, okc := constInt(sl.High); okc && k == 0 {
+						okEmpty = true
+						// ... cut from another array than the one just taken out of the shard (which deal() is about to
+						// walk while producers append to the shard)
+						if u, isLoad := sl.X.(*ssa.UnOp); isLoad && u.Op == token.MUL {
+							if ia2, ok := u.X.(*ssa.IndexAddr); ok && strings.HasSuffix(pathOf(ia2.X), ".getters") {
+								sameArray = i
+							}
+						}
+					}
+				}
+			})
+		}
+		const sharedRule = "the empty slice left in a drained shard is not a re-slice of the batch that was just taken out of it: producers append to the shard under its lock while the worker walks the batch outside the lock - on a shared array they overwrite getters that have not run yet"
+		if sameArray != nil {
+			r.ob("C17.R3:emptied-shard-does-not-share-the-batch", sharedRule, sameArray.Parent(), sameArray, false, "getters[shard] = getters[shard][:0]", true)
+		} else if okEmpty {
+			r.ob("C17.R3:emptied-shard-does-not-share-the-batch", sharedRule, worker, nil, true, "cut from the spare buffer", true)
+		}
 		r.ob("C17.R3:shard-emptied", "the worker leaves an empty slice in the shard it drains (otherwise its getters would run again)", worker, nil, okEmpty, "getters[shard] = swap[:0]", true)
 		for _, d := range findIns(worker, func(i ssa.Instruction) bool { return isCall(i, deal) }) {
-			r.precedes("C17.R3:deal-after-unlock", "getters are executed outside the shard lock (Add never spins on user code)", worker, d, func(i ssa.Instruction) bool { return isCall(i, qunlock) }, nil, "q.unlock dominates deal()")
+			r.precedes("C17.R3:deal-after-unlock", "getters are executed outside the shard lock (Add never spins on user code)", worker, d, func(i ssa.Instruction) bool {
+				if isCall(i, qunlock) {
+					return true
+				}
+				// a private helper of the worker that takes and releases the shard lock on every path
+				for _, wf := range workerFns[1:] {
+					if isCall(i, wf) {
+						ss := &Search{Fn: wf, Stop: func(x ssa.Instruction) bool { return isCallOrDefer(x, qunlock) }}
+						return ss.Find([]Start{Entry(wf)}, nil, true) == nil
+					}
+				}
+				return false
+			}, nil, "q.unlock dominates deal()")
 		}
 	}
 	// the counter is settled only after the shard's getters were dealt with: Close waits for trigger==0, and that must mean
